@@ -2,6 +2,7 @@
    Only statements, [exact] and [Print Assumptions] live here. *)
 From Coq Require Import List ZArith Bool Reals.
 From SR Require Import Model.CombatCore Model.Hit Proofs.CombatFacts Proofs.HitProofs.
+From SR Require Gen.FormulasInfo Gen.FormulasAttr Gen.Formulas Proofs.FormulasProofs.
 Import ListNotations.
 
 Theorem C04_hits : C04_statement.
@@ -34,6 +35,48 @@ Theorem C04_hp_plus_shield_is_total :
      (0 <= r_total RNum r -> 0 <= r_hp RNum r /\ 0 <= r_total RNum r - r_hp RNum r))%R.
 Proof. exact hit_steps_split. Qed.
 Print Assumptions C04_hp_plus_shield_is_total.
+
+(* The translator tie: the model definitions the theorems above are about are, for every NumOps
+   instance and every argument, EQUAL to the definitions go2coq generates from the Go source of
+   damage.go, hit.go (arithmetic of performHit / newHit), stats.go, map.go, prop.go, the attribute
+   and shield arithmetic the hit uses, and break.gen.go (Gen/FormulasInfo.v, Gen/FormulasAttr.v,
+   Gen/Formulas.v; the conjunction is spelled out in Proofs/FormulasProofs.v,
+   C04_formulas_statement). *)
+Theorem C04_model_formulas_are_the_source : FormulasProofs.C04_formulas_statement.
+Proof. exact FormulasProofs.C04_formulas_hold. Qed.
+Print Assumptions C04_model_formulas_are_the_source.
+
+(* the same tie for the whole hit: perform_hit with every arithmetic expression replaced by its
+   generated twin *)
+Theorem C04_perform_hit_is_the_source :
+  forall N brk w h0 adjs,
+  perform_hit N brk w h0 adjs =
+  (let h := with_event N h0 (apply_adjs N (h_att N h0, h_def N h0, h_terms N h0, h_flat N h0) adjs) in
+   let att := s_id N (h_att N h) in
+   let def := s_id N (h_def N h) in
+   let start := IHitStart (h_key N h) (h_idx N h) att def (h_atype N h) (h_dtype N h) (sort_terms N (h_terms N h))
+                          [h_energy N h; h_stance N h; h_ratio N h; h_flat N h] (h_pure N h) (h_snap N h) in
+   let '(crit, w1, drawn) := crit_step N w h in
+   match Formulas.baseDamage N brk h with
+   | None => None
+   | Some bd =>
+       let '(fs, total) := Formulas.performHit_damage N h bd crit in
+       let '(w2, shieldEvs, hpUpdate) := absorb N w1 def total in
+       let '(w3, hpEvs) := modify_hp N w2 (h_key N h) def att (Formulas.performHit_hpAmount N h hpUpdate) true in
+       let '(w4, stEvs) :=
+         if Formulas.performHit_stanceCond N h hpUpdate
+         then modify_stance N w3 (h_key N h) def att (Formulas.performHit_stanceAmount N h hpUpdate)
+         else (w3, []) in
+       let amount := Formulas.performHit_energyAmount N h hpUpdate in
+       let receiver := if is_char N w4 att then att else def in
+       let '(w5, enEvs) := modify_energy N w4 (h_key N h) receiver att amount in
+       let fin := IHitEnd (h_key N h) (h_idx N h) att def (h_atype N h) (h_dtype N h)
+                          (fs ++ [total; hpUpdate; nsub N total hpUpdate; ratio_left N w5 def])
+                          crit (h_snap N h) in
+       Some (w5, start :: drawn ++ shieldEvs ++ hpEvs ++ stEvs ++ enEvs ++ [fin])
+   end).
+Proof. exact FormulasProofs.gen_perform_hit_is_model. Qed.
+Print Assumptions C04_perform_hit_is_the_source.
 
 Theorem C04_nonvacuous : demo_statement.
 Proof. exact demo_hit. Qed.
